@@ -12,21 +12,29 @@ open Std
 namespace Gkv.Props.C08
 open Gkv
 
-/-- FlushRevert goes to the greatest complete root record strictly below the current end, loads
-    its collections and truncates the file to end there -/
+/-- FlushRevert goes from the most recent root record (ending at `E`, wherever `size ≥ E` is —
+    `size > E` happens after a failed Flush) to the greatest complete root record strictly below
+    it, loads its collections and truncates the file to end there -/
 theorem revert_to_previous_flush (st : Store) (fid : Nat) (f : Bytes) (cmpOf : Bytes → CmpKind)
+    (E : Nat) (rootsE : List (Bytes × Option Ploc))
+    (hcur : rootAt f E = some rootsE) (hEle : E ≤ st.size)
+    (habove : ∀ e', E < e' → e' ≤ st.size → rootAt f e' = none)
     (E' : Nat) (roots' : List (Bytes × Option Ploc))
-    (hE : rootsLen < st.size) (hlt : E' < st.size) (hr : rootAt f E' = some roots')
-    (hbetween : ∀ e', E' < e' → e' < st.size → rootAt f e' = none) :
+    (hlt : E' < E) (hr : rootAt f E' = some roots')
+    (hbetween : ∀ e', E' < e' → e' < E → rootAt f e' = none) :
     revertStore st fid f cmpOf =
       (loadColls f cmpOf roots').map (fun cs =>
         ({ st with size := E', colls := cs, file := some fid }, if st.readOnly then f else f.take E')) := by
-  rw [revertStore_prev st fid f cmpOf E' roots' hE hlt hr hbetween]
+  rw [revertStore_prev st fid f cmpOf E rootsE hcur hEle habove E' roots' hlt hr hbetween]
   cases loadColls f cmpOf roots' <;> rfl
 
-/-- reverting past the first flush: an empty store with no collections, file truncated to zero -/
+/-- reverting past the first flush (or with no flush at all): an empty store with no
+    collections, file truncated to zero -/
 theorem revert_past_first_flush (st : Store) (fid : Nat) (f : Bytes) (cmpOf : Bytes → CmpKind)
-    (h : ∀ e', e' < st.size → rootAt f e' = none) :
+    (h : (∀ e', e' ≤ st.size → rootAt f e' = none) ∨
+         (∃ E rootsE, rootAt f E = some rootsE ∧ E ≤ st.size ∧
+            (∀ e', E < e' → e' ≤ st.size → rootAt f e' = none) ∧
+            ∀ e', e' < E → rootAt f e' = none)) :
     revertStore st fid f cmpOf =
       some ({ st with size := 0, colls := [], file := some fid }, if st.readOnly then f else []) :=
   revertStore_none st fid f cmpOf h
